@@ -40,6 +40,8 @@ func init() {
 			need(m, &out, "truncated_final_packet_checks", 500)
 			need(m, &out, "truncation_offsets_tried", 5000)
 			need(m, &out, "fuzz_corpus_inputs", 10)
+			need(m, &out, "malformed_descriptor_length_cases", 10000)
+			needSet(m, &out, "malformed_descriptor_tags", 24)
 			needSet(m, &out, "config_cells", 100)
 			needSet(m, &out, "error_kinds", 20)
 			return out
@@ -416,6 +418,81 @@ func runC03(c *mon.Ctx) {
 					}
 				}
 			}
+		}
+	}
+	// malformed descriptor lengths inside well-formed sections (section and loop lengths consistent, CRC valid): the
+	// declared descriptor_length is shorter / longer than the body the tag implies, for every tag, at every loop position
+	tagsAll := append(gen.TypedTags(), 0x80, 0x02, 0xFF)
+	nd := c.Pick(int64(len(tagsAll))*40, int64(len(tagsAll))*1500)
+	for i := int64(0); i < nd; i++ {
+		if !c.Mine("desc-lengths", i) {
+			continue
+		}
+		c.Begin("desc-lengths", i, nil)
+		r := c.Rng("desc-lengths", i)
+		tag := tagsAll[int(i)%len(tagsAll)]
+		d := gen.Descriptor(r, tag, 1+r.IntN(60))
+		w := &refts.W{}
+		if refts.EncodeDescriptor(w, d) != nil {
+			continue
+		}
+		body := append(w.B[2:], gen.Bytes(r, 4)...)
+		kind := []refts.TableKind{refts.KindPMT, refts.KindSDT, refts.KindEIT, refts.KindNIT, refts.KindTOT}[r.IntN(5)]
+		for L := 0; L <= len(body); L++ {
+			sec := gen.RandomSection(r, kind, 300, 0)
+			ph := &astits.Descriptor{Tag: 0x80, Length: uint8(L), UserDefined: bytes.Repeat([]byte{0xD5}, L)}
+			sent := &astits.Descriptor{Tag: 0xA5, Length: 3, UserDefined: []byte{0x5E, byte(L), 0xE5}}
+			loop := []*astits.Descriptor{ph, sent}
+			if r.IntN(2) == 0 {
+				loop = append(gen.Descriptors(r, 20), loop...)
+			}
+			sd := sec.Syntax.Data
+			switch kind {
+			case refts.KindPMT:
+				if r.IntN(2) == 0 || len(sd.PMT.ElementaryStreams) == 0 {
+					sd.PMT.ProgramDescriptors = loop
+				} else {
+					sd.PMT.ElementaryStreams[0].ElementaryStreamDescriptors = loop
+				}
+			case refts.KindSDT:
+				sd.SDT.Services = append(sd.SDT.Services, &astits.SDTDataService{ServiceID: 1, Descriptors: loop})
+			case refts.KindEIT:
+				sd.EIT.Events = append(sd.EIT.Events, &astits.EITDataEvent{EventID: 1, StartTime: gen.DVBTime(r), Descriptors: loop})
+			case refts.KindNIT:
+				if r.IntN(2) == 0 {
+					sd.NIT.NetworkDescriptors = loop
+				} else {
+					sd.NIT.TransportStreams = append(sd.NIT.TransportStreams, &astits.NITDataTransportStream{TransportDescriptors: loop})
+				}
+			case refts.KindTOT:
+				sd.TOT.Descriptors = loop
+			}
+			enc, err := refts.EncodeSection(sec, nil)
+			if err != nil {
+				continue
+			}
+			// patch the placeholder into the malformed descriptor and re-sign the section
+			pos := bytes.Index(enc, append([]byte{0x80, byte(L)}, bytes.Repeat([]byte{0xD5}, L)...))
+			if pos < 0 {
+				continue
+			}
+			enc[pos] = d.Tag
+			copy(enc[pos+2:pos+2+L], body[:L])
+			crc := refts.CRC32(enc[:len(enc)-4])
+			enc[len(enc)-4], enc[len(enc)-3], enc[len(enc)-2], enc[len(enc)-1] = byte(crc>>24), byte(crc>>16), byte(crc>>8), byte(crc)
+			pid := gen.PIDFor(kind)
+			u := &gen.Unit{PID: pid, Kind: gen.UnitPSI, Payload: append([]byte{0}, enc...), TailPad: true}
+			u.PlanChunks(gen.RandomChunks(r, len(u.Payload), 0, 0, true))
+			per := map[uint16][]*gen.Unit{pid: {u}}
+			order := repeatPID(pid, len(u.Plan))
+			if kind == refts.KindPMT {
+				per[0] = []*gen.Unit{gen.PATFor(r, pid)}
+				order = append([]uint16{0}, order...)
+			}
+			st := gen.Mux(per, order, nil)
+			execC03(c, "desc-lengths", i, st.Bytes, c03cfg{188, "seek", 0, "data", 0}, r, fmt.Sprintf("descriptor-length:%02x", d.Tag))
+			c.Count("malformed_descriptor_length_cases")
+			c.Seen("malformed_descriptor_tags", fmt.Sprintf("%02x", d.Tag))
 		}
 	}
 	// stored fuzz corpora of the repository
